@@ -7,6 +7,7 @@ import (
 	"time"
 
 	"github.com/cuteLittleDevil/go-jt808/service"
+	"github.com/cuteLittleDevil/go-jt808/shared/consts"
 
 	"verif/harness/internal/core"
 	"verif/harness/internal/svc"
@@ -16,7 +17,12 @@ import (
 // data must trigger exactly one 0x8003 with the exact list; after >= 61 s the transfer is gone. "Nothing before
 // 5 s / 60 s" is never judged on the wall clock (monitor 1 decides that direction on virtual time).
 
-func c14RealTime(c *core.Collector, x *Ctx) {
+func c14RealTime(c *core.Collector, x *Ctx) { c14RealTimeRun(c, x, false) }
+
+// c14RealTimeShort is the quick-tier variant: 16 scenarios, only the 5 s phase (about 6 s of wall time).
+func c14RealTimeShort(c *core.Collector, x *Ctx) { c14RealTimeRun(c, x, true) }
+
+func c14RealTimeRun(c *core.Collector, x *Ctx, short bool) {
 	c.Rule = "real-time socket scenarios run concurrently: packet 1 + a subset of N packets, sleep 5.3 s, heartbeat => exactly one 0x8003 (first packet's serial, ascending missing list, next platform serial) and the heartbeat's own reply; an immediate second heartbeat => no further 0x8003; " +
 		"then either resupply (transfer completes and is answered) or sleep to 61 s and resupply (no delivery, no reply for the transfer). evaluation = one scenario"
 	srv, err := svc.Start(func() service.TerminalEventer { return svc.NewRecorder() })
@@ -25,6 +31,9 @@ func c14RealTime(c *core.Collector, x *Ctx) {
 		return
 	}
 	n := 40
+	if short {
+		n = 16
+	}
 	var wg sync.WaitGroup
 	for i := 0; i < n; i++ {
 		wg.Add(1)
@@ -72,13 +81,44 @@ func c14RealTime(c *core.Collector, x *Ctx) {
 					t.Write(t.SubFrame(0x0801, first+uint16(k), uint16(N), uint16(k), bodies[k-1]))
 				}
 			}
-			time.Sleep(5300 * time.Millisecond)
+			// every third scenario has a platform command outstanding while the re-request is produced (answered afterwards)
+			var cmdRes chan cmdResult
+			if i%3 == 0 {
+				time.Sleep(5000 * time.Millisecond)
+				cmdRes = make(chan cmdResult, 1)
+				go func() {
+					cmdRes <- sendCmd(srv.G, t.Phone, consts.P8104QueryTerminalParams, nil, 8*time.Second, 8*time.Second+slackFor(time.Second))
+				}()
+				rx, ok := next()
+				if !ok {
+					return
+				}
+				if rx.F.ID != 0x8104 {
+					bad("unexpected frame", fmt.Sprintf("expected the platform command, got %x", rx.Raw))
+					return
+				}
+				defer func(pserial uint16) {
+					t.Write(t.Frame(0x0001, 0x7001, []byte{byte(pserial >> 8), byte(pserial), 0x81, 0x04, 0}))
+					select {
+					case res := <-cmdRes:
+						if res.kind != "response" {
+							bad("a command outstanding while a re-request was produced did not get its response", res.kind)
+						}
+					case <-time.After(20 * time.Second):
+						c.Inconclusive()
+					}
+				}(rx.F.Serial)
+				time.Sleep(300 * time.Millisecond)
+			} else {
+				time.Sleep(5300 * time.Millisecond)
+			}
 			t.Write(t.Frame(0x0002, 1, nil))
 			want := []byte{byte(first >> 8), byte(first), byte(len(missing))}
 			for _, k := range missing {
 				want = append(want, 0, byte(k))
 			}
 			got8003, got8001 := 0, 0
+			var last8003 []byte
 			for q := 0; q < 2; q++ {
 				rx, ok := next()
 				if !ok {
@@ -90,6 +130,10 @@ func c14RealTime(c *core.Collector, x *Ctx) {
 					if !bytes.Equal(rx.F.Body, want) {
 						bad("re-request body is not (first packet's serial, count, ascending missing numbers)", fmt.Sprintf("got %x want %x", rx.F.Body, want))
 					}
+					if !bytes.Equal(rx.F.BCD, t.BCD) || rx.F.V2019 != t.V2019 {
+						bad("re-request not addressed with the terminal's phone number and protocol version", fmt.Sprintf("frame %x", rx.Raw))
+					}
+					last8003 = rx.Raw
 				case 0x8001:
 					got8001++
 				default:
@@ -108,7 +152,23 @@ func c14RealTime(c *core.Collector, x *Ctx) {
 				bad("a second re-request within 5 s of the first", fmt.Sprintf("%x", rx.Raw))
 				return
 			}
-			expire := i%2 == 1
+			// the re-request is a frame the server wrote: it must have been reported to the write callback with these bytes
+			if !svc.RaceMode && last8003 != nil {
+				if rec := svc.Lookup(t.Phone, first); rec != nil {
+					seen := false
+					for _, e := range rec.WriterLog() {
+						if e.Kind == "write" && bytes.Equal(e.Data, last8003) {
+							seen = true
+						}
+					}
+					if !seen {
+						bad("re-request was not reported to the write callback with the bytes sent", fmt.Sprintf("%x", last8003))
+					} else {
+						c.Count("re_requests_found_in_the_write_callback_log", 1)
+					}
+				}
+			}
+			expire := i%2 == 1 && !short
 			if expire {
 				time.Sleep(56 * time.Second) // > 61 s since packet 1
 			}
@@ -156,6 +216,83 @@ func c14RealTime(c *core.Collector, x *Ctx) {
 			}
 		}(i)
 	}
+	// several transfers (different message IDs) idle on ONE connection: the read that follows must yield one re-request per transfer
+	for m := 0; m < 4; m++ {
+		wg.Add(1)
+		go func(m int) {
+			defer wg.Done()
+			r := core.NewRand(c.Seed, "c14rtm", uint64(m))
+			t, err := svc.Dial(srv.Addr, m%2 == 1, fmt.Sprintf("%d", 5600000+m))
+			if err != nil {
+				c.Inconclusive()
+				return
+			}
+			defer t.Close()
+			ids := []uint16{0x0801, 0x0704, 0x0200, 0x0102, 0x0100, 0x0800}[:4+m%3]
+			want := map[uint16]bool{} // first serial of each transfer
+			for q, id := range ids {
+				first := uint16(1000 + 10*q)
+				bodies := c05Bodies(r, 3, 0)
+				t.Write(t.SubFrame(id, first, 3, 1, bodies[0]))
+				t.Write(t.SubFrame(id, first+2, 3, 3, bodies[2]))
+				want[first] = true
+			}
+			time.Sleep(5300 * time.Millisecond)
+			if m >= 2 { // the writer is busy answering a burst when the re-requests are produced
+				var burst []byte
+				for k := 0; k < 8; k++ {
+					burst = append(burst, t.Frame(0x0002, uint16(100+k), nil)...)
+				}
+				t.Write(burst)
+			} else {
+				t.Write(t.Frame(0x0002, 100, nil))
+			}
+			got := map[uint16]int{}
+			quiet := false
+			for !quiet {
+				rx, ok, to := t.Next(2500 * time.Millisecond)
+				switch {
+				case to:
+					quiet = true
+				case !ok || rx.F == nil:
+					c.Violate("realtime|connection closed or undecodable frame during a valid conversation", fmt.Sprintf("multi-transfer scenario %d", m), nil)
+					return
+				case rx.F.ID == 0x8003 && len(rx.F.Body) == 5:
+					first := uint16(rx.F.Body[0])<<8 | uint16(rx.F.Body[1])
+					got[first]++
+					if !want[first] || rx.F.Body[2] != 1 || rx.F.Body[3] != 0 || rx.F.Body[4] != 2 {
+						c.Violate("realtime|re-request body is not (first packet's serial, count, ascending missing numbers)", fmt.Sprintf("multi-transfer scenario %d: %x", m, rx.F.Body), nil)
+						return
+					}
+				case rx.F.ID == 0x8003:
+					c.Violate("realtime|re-request body is not (first packet's serial, count, ascending missing numbers)", fmt.Sprintf("multi-transfer scenario %d: %x", m, rx.F.Body), nil)
+					return
+				}
+			}
+			// quiet for 2.5 s: is the server merely slow, or are re-requests missing? a sentinel answered promptly decides
+			t0 := time.Now()
+			t.Write(t.Frame(0x0002, 999, nil))
+			rx, ok, to := t.Next(2500 * time.Millisecond)
+			if to || !ok || rx.F == nil || time.Since(t0) > 250*time.Millisecond {
+				c.Inconclusive()
+				return
+			}
+			for first := range want {
+				if got[first] != 1 {
+					c.Violate("realtime|with several transfers idle on one connection, not every one of them was re-requested exactly once", fmt.Sprintf("multi-transfer scenario %d (%d transfers): re-requests per first serial %v", m, len(ids), got), nil)
+					return
+				}
+			}
+			c.Eval()
+			c.Count("realtime_multi_transfer_scenarios", 1)
+		}(m)
+	}
 	wg.Wait()
-	c.Floor("realtime_scenarios", 20)
+	c.Floor("realtime_multi_transfer_scenarios", 2)
+	if short {
+		c.Floor("re_requests_found_in_the_write_callback_log", 8)
+		c.Floor("realtime_scenarios", 8)
+	} else {
+		c.Floor("realtime_scenarios", 20)
+	}
 }
